@@ -238,6 +238,7 @@ def build_pair(cfg: dict, store: Store, resume: bool = False):
     s.handshake_extensions = [(tls.ExtensionType.QUIC_TRANSPORT_PARAMETERS, TP_SERVER)]
     cert, key = P.leaf(cfg.get("key", "p256"), cfg.get("flavour", "good"))
     s.certificate, s.certificate_private_key = cert, key
+    s.certificate_chain = P.chain_for(cfg.get("flavour", "good"))
     cc = cfg.get("client_cert")
     if cc:
         s._request_client_certificate = True  # the only switch the TLS engine offers for this
@@ -608,7 +609,8 @@ def rebind(msg: bytes, suite_name: str, psk: bytes) -> bytes:
     return msg[:bs] + binder + msg[be:]
 
 
-B_CERT_CASES = ["wrong-name", "expired", "not-yet", "self-signed", "untrusted-ca"]
+B_CERT_CASES = ["wrong-name", "expired", "not-yet", "self-signed", "untrusted-ca",
+                "untrusted-ca+root-in-chain", "untrusted-inter+root-in-chain", "untrusted-inter-in-chain"]
 B_SIG_CASES = ["cv-wrong-key", "cv-wrong-context", "cv-wrong-transcript"]
 B_PSK_CASES = ["psk-impostor-server", "psk-client-secret-unknown-to-server", "psk-unknown-ticket-then-bad-cert"]
 
